@@ -8,6 +8,7 @@ import Drv.C03
 import Drv.C02
 import Drv.C04
 import Drv.C13
+import Drv.C11
 /- Line protocol driver: one command per line in, one line out. -/
 open Drv
 
@@ -25,6 +26,7 @@ def dispatch (line : String) : String :=
   | "c01.dec" :: lim :: mono :: rows :: hex :: _ => C01.cmdDec lim mono rows hex (C01.restAfter line 5)
   | "c02.block" :: rev :: bk :: rows :: _ => C02.cmdBlock rev bk rows (C01.restAfter line 4)
   | "c02.dec" :: rev :: lim :: hex :: _ => C02.cmdDec rev lim hex (C01.restAfter line 4)
+  | "c11.run" :: args => C11.cmdRun args
   | "c13.recv" :: args => C13.cmdRecv args
   | "c04.run" :: args => C04.cmdRun args
   | "c04.outcomes" :: args => C04.cmdOutcomes args
